@@ -32,6 +32,15 @@ def stmt_regs(s):
         used = [s[1]]
         for b in s[2]: used += stmt_regs(b)[1]
         return None, used
+    if op in ("pack", "unpack"): return s[1], [s[3]]
+    if op == "snark":
+        def lv(t): return [t] if isinstance(t, int) else [y for x in t[1] for y in lv(x)]
+        used = [y for t in s[2] for y in lv(t)] + lv(s[4])
+        for b in s[3]: used += stmt_regs(b)[1]
+        return s[1], used
+    if op == "arrnew": return s[1], list(s[2])
+    if op == "arrget": return s[1], [s[2]] + list(s[3])
+    if op == "arrset": return s[1], [s[1], s[3]] + list(s[2])
     if op == "bset": return None, [s[2]]
     if op == "bget": return s[1], []
     if op == "breakif": return None, [s[1]]
